@@ -442,6 +442,19 @@ def oracle_C07(rnd, budget):
         ('del d["a"]; d', {'d': {'a': 1, 'b': 2}}, {'b': 2}), ('x += 1; x', {'x': 1}, D(2)),
         ('"1234 test" | match(r"\\d+")', {}, '1234'), ('match_groups("ab", "(a)(b)")', {}, ['ab', 'a', 'b']), ('match_all("a1b2", r"\\d")', {}, ['1', '2']),
         ('pretty(1234567)', {}, '1 234 567'), ('pretty([1, 2])', {}, '1, 2'), ('x = 1\n\n\ny = 2; y', {}, D(2)),
+        # negative positions, aliasing of the in-place operators, None as a value, signed integer parts, surface forms
+        ('del l[-1]; l', {'l': [1, 2, 3]}, [1, 2]), ('del l[-3]; l', {'l': [1, 2, 3]}, [2, 3]), ('del l[5]; l', {'l': [1, 2, 3]}, [1, 2, 3]),
+        ('del l[1.9]; l', {'l': [1, 2, 3]}, [1, 3]), ('l[-1] = 9; l', {'l': [1, 2]}, [1, D(9)]), ('l[-2] += 1; l', {'l': [1, 2]}, [D(2), 2]),
+        ('l.push(x); x += [2]; l', {'x': [1], 'l': []}, [[1, D(2)]]), ('x += "ab"; x', {'x': [1]}, [1, 'a', 'b']),
+        ('y = x; x += [2]; y', {'x': [1]}, [1]), ('d["k"] += [2]; e', {'d': {'k': [1]}, 'e': None}, None),
+        ('x', {'x': None}, None), ('x == None', {'x': None}, True), ('f = v => v; f(None)', {}, None), ('r = index_of([1], 5); r', {}, None),
+        ('f = x => x; x = 5; f(None)', {}, None), ('get({"a": None}, "a", 5)', {}, None),
+        ('floor(-2.5)', {}, D(-3)), ('ceil(-2.5)', {}, D(-2)), ('int(-2.7)', {}, D(-2)), ('round(-2.5)', {}, D(-2)), ('abs(-0.0)', {}, D(0)),
+        ('max(1, 2,)', {}, D(2)), ('[1, 2,]', {}, [D(1), D(2)]), ('{"a": 1,}', {}, {'a': D(1)}), ('2 | max(5,)', {}, D(5)), ('2.max(5,)', {}, D(5)),
+        ('-x.max(1)', {'x': 5}, D(1)), ('- x | max(1)', {'x': 5}, D(1)), ('not x | str', {'x': []}, 'True'), ('5.str()', {}, '5'),
+        ('1 + 1   ', {}, D(2)), ('1 + 1\n', {}, D(2)), ('[1,\n 2, # c\n]', {}, [D(1), D(2)]), ('f(\n 1, # x\n)', {'f': lambda v: v}, D(1)),
+        ('l.remove(1); l', {'l': [1, 1, 2]}, [1, 2]), ('[] or False', {}, False), ('5 and True', {}, True), ('0 or False', {}, False),
+        ('sorted({"b": 1, "a": 2})', {}, {'a': D(2), 'b': D(1)}), ('"a,b" | split(",")', {}, ['a', 'b']),
     ]
     for src, names, want in cases:
         case()
@@ -449,7 +462,9 @@ def oracle_C07(rnd, budget):
         r = run(p, src, names=nm)
         if r[0] != 'ok' or r[1] != want or type(r[1]) is not type(want) and not (isinstance(want, Decimal) and isinstance(r[1], Decimal)):
             fail(what='value differs from the reference semantics', src=src, got=r, want=want)
-    for src, cls in [('u', 'parser_error'), ('u()', 'parser_error'), ('[1][5]', 'parser_error'), ('{"a":1}["b"]', 'parser_error'), ('pop([])', 'parser_error')]:
+    for src, cls in [('u', 'parser_error'), ('u()', 'parser_error'), ('[1][5]', 'parser_error'), ('{"a":1}["b"]', 'parser_error'), ('pop([])', 'parser_error'),
+                     ('"a" * 2', 'parser_error'), ('[1] * 2', 'parser_error'), ('u(1 / 0)', 'exc:DivisionByZero'), ('x | f()', 'parser_error'),
+                     ('1 +\n2', 'parser_error'), ('total =\n5', 'parser_error'), ('[1, 2][-3]', 'parser_error'), ('reduce([], (a, b) => a)', 'exc:TypeError')]:
         case()
         r = run(p, src)
         if r[0] != cls:
@@ -506,6 +521,33 @@ def oracle_C08(rnd, budget):
               'int(0.29 * 100)': Decimal(29), 'min(0.1 + 0.2, 0.3)': Decimal('0.3'), 'max(0.3, 0.1 + 0.2)': Decimal('0.3')}[src]
         if r[0] != 'ok' or r[1] != py:
             fail(what='numeric builtin shows binary floating point error', src=src, got=r, want=py)
+    # integer parts and roundings of signed numbers, against exact rational arithmetic
+    import math
+    for _ in range(120):
+        # at most 22 significant digits: every operation below is exact in the 28-digit context
+        a = str(rnd.randint(0, 10 ** rnd.randint(0, 12)))
+        if rnd.random() < 0.7:
+            a += '.' + ''.join(rnd.choice('0123456789') for _ in range(rnd.randint(1, 10)))
+        if rnd.random() < 0.5:
+            a = '-' + a
+        fa = Fraction(a)
+        k = rnd.randint(0, 6)
+        wants = {'floor(%s)' % a: Decimal(math.floor(fa)), 'ceil(%s)' % a: Decimal(math.ceil(fa)),
+                 'int(%s)' % a: Decimal(math.trunc(fa)), 'abs(%s)' % a: Decimal(a.lstrip('-')),
+                 'round(%s, %d)' % (a, k): Decimal(a).quantize(Decimal(1).scaleb(-k), rounding=decimal.ROUND_HALF_EVEN,
+                                                               context=decimal.Context(prec=60)),
+                 'min(%s, 0)' % a: min(Decimal(a), Decimal(0)), 'max(%s, 0)' % a: max(Decimal(a), Decimal(0))}
+        for src, want in wants.items():
+            case()
+            r = run(p, src)
+            if r[0] != 'ok' or not isinstance(r[1], Decimal) or r[1] != want:
+                fail(what='numeric builtin is not the exact decimal result', src=src, got=r, want=want)
+    for a in ['9007199254740993', '0.99999999999999999999', '12345678901234567890.5', '-0.5', '-0.1', '2.5', '-2.5', '1e0'.replace('e0', '')]:
+        for f, g in (('int', math.trunc), ('floor', math.floor), ('ceil', math.ceil)):
+            case()
+            r = run(p, '%s(%s)' % (f, a))
+            if r[0] != 'ok' or r[1] != Decimal(g(Fraction(a))):
+                fail(what='integer part is not exact', src='%s(%s)' % (f, a), got=r, want=g(Fraction(a)))
     # the decimal context is left alone
     case()
     before = (decimal.getcontext().prec, decimal.getcontext().rounding)
@@ -553,7 +595,9 @@ def oracle_C09(rnd, budget):
                 if want_val is not None and r[1] is not want_val(a, b) and r[1] != want_val(a, b):
                     fail(what='lazy operator did not yield the deciding operand', src=src, a=a, b=b, got=r[1])
     # a raising probe stops evaluation right there
-    for src, want in [('f(t(1), t(2, None, True), t(3))', [1, 2]), ('{t(1, "k"): t(2, None, True), t(3): t(4)}', [1, 2]), ('[t(1, None, True), t(2)]', [1])]:
+    for src, want in [('f(t(1), t(2, None, True), t(3))', [1, 2]), ('{t(1, "k"): t(2, None, True), t(3): t(4)}', [1, 2]), ('[t(1, None, True), t(2)]', [1]),
+                      ('undefined_fn(t(1), t(2))', [1, 2]), ('undefined_fn(t(1, None, True), t(2))', [1]), ('t(1, 5) | undefined_fn(t(2))', [1, 2]),
+                      ('x = undefined_fn(t(1))', [1])]:
         case()
         del log[:]
         run(p, src, names={'t': t, 'f': lambda *x: None})
@@ -583,6 +627,12 @@ def oracle_C10(rnd, budget):
         ('f = k => boom(k); g = z => k; h(f, 1); g(0)', {'h': catcher, 'k': 'outer'}, 'outer', None),
         ('map([1, 2], v => v)', {'v': 'host'}, [Decimal(1), Decimal(2)], {'v': 'host'}),
         ('h(v => boom(v), 1); h(w => v, 2)', {'h': catcher, 'v': 'host'}, 'host', None),
+        ('f = x => x; f(None)', {'x': 5}, None, {'x': 5}),
+        ('x = None; f = v => x; f(1)', {'x': 5}, None, None),
+        ('f = len => len; f(None)', {}, None, None),
+        ('f = t => g(t); f(1)', {'g': lambda v: v, 't': 9}, Decimal(1), {'t': 9}),
+        ('y = 1; f = x => x + y; y = 2; f(0)', {}, Decimal(2), None),
+        ('fact = n => 1 if n < 2 else n * fact(n - 1); fact(4)', {}, Decimal(24), None),
     ]
     for src, names, want, want_names in scen:
         case()
@@ -688,11 +738,29 @@ def oracle_C11(rnd, budget):
     shared.eval('x = 2', names=n2)
     if outcome(lambda: shared.eval('x', names=n1)) != ('ok', "Decimal('1')") and outcome(lambda: shared.eval('x', names=n1))[1] not in ('1', "Decimal('1')"):
         fail(what='names mappings interfere', got=outcome(lambda: shared.eval('x', names=n1)))
+    # pairs of calls, the first possibly without a names mapping / with differently written equal keys / defining lambdas
+    firsts = ['leak = 41', 'len = 5', 'd = {1.0: "a"}; d', 'd = {1: "a"}; d', 'f = v => v + 1; f(1)', 'x = [1]; x.push(2)', '(((', '1 +', 'f(1,\n',
+              'scale = v => v * k; scale(1)', 'k = 5']
+    seconds = ['leak', 'len([1, 2])', 'd = {1: "b"}; d', '{1.00: "c"}', 'f(1)', 'x', '1 +\n2', 'a\nb', 'scale(1)', 'k', '[1,\n2]']
+    fresh_of = {}
+    combos = [(a, b, w, c) for a in firsts for b in seconds for w in (False, True) for c in (False, True)]
+    if budget == 'quick':
+        combos = rnd.sample(combos, 40)
+    for a, b, with_names, cached in combos:
+        case()
+        q = SqParser(parse_cache={}) if cached else SqParser()
+        outcome(lambda: q.eval(a, **({'names': {'k': 2}} if with_names else {})))
+        got = outcome(lambda: q.eval(b, **({'names': {'k': 2}} if with_names else {})))
+        if (b, with_names) not in fresh_of:
+            fresh_of[(b, with_names)] = outcome(lambda: SqParser().eval(b, **({'names': {'k': 2}} if with_names else {})))
+        if got != fresh_of[(b, with_names)]:
+            fail(what='result of a call depends on an earlier call on the same parser (fresh names mapping each time)',
+                 first=a, second=b, with_names=with_names, got=got, fresh=fresh_of[(b, with_names)])
 
 
 def oracle_C12(rnd, budget):
     p = SqParser()
-    host = {'h': [[1], {'k': [2]}], 't': ([1], 2), 'd': {'a': [1]}}
+    host = {'h': [[1], {'k': [2]}], 't': ([1], 2), 'd': {'a': [1]}, 'e': []}
     progs = [
         ('a = h; a[0].push(9); h', lambda nm, r: r == [[1], {'k': [2]}]),
         ('a = h; h[0].push(9); a', lambda nm, r: r == [[1], {'k': [2]}]),
@@ -707,6 +775,12 @@ def oracle_C12(rnd, budget):
         ('c = [[1]]; y = [[2]]; c[0] += y; y[0].push(3); c', lambda nm, r: r == [[Decimal(1), [Decimal(2)]]]),
         ('x = h; y = h; x[0].push(7); y', lambda nm, r: r == [[1], {'k': [2]}]),
         ('x = h; h[1]["k"].push(5); x = h; x', lambda nm, r: r == [[1], {'k': [2, 5]}]),
+        ('a = []; b = a; b.push(1); a', lambda nm, r: r == []),
+        ('a = {}; b = a; b["k"] = 1; a', lambda nm, r: r == {}),
+        ('c = e; c.push(1); e', lambda nm, r: r == []),
+        ('c = [[]]; x = []; c[0] = x; x.push(1); c', lambda nm, r: r == [[]]),
+        ('c = {}; x = [1]; c["k"] = x; x.push(2); c', lambda nm, r: r == {'k': [Decimal(1)]}),
+        ('x = [1]; c = {"k": [0]}; c["k"] += x; x.push(2); c', lambda nm, r: r == {'k': [Decimal(0), Decimal(1)]}),
     ]
     for src, ok in progs:
         case()
@@ -744,6 +818,18 @@ def oracle_C13(rnd, budget):
                     run(p, src, names=nm, max_ops_evaluated=500)
                     if nm['a'] != before or type(nm['a']) is not type(before):
                         fail(what='a non-mutating builtin modified its argument', src=src, before=before, after=nm['a'])
+    # lambdas handed to the non-mutators use operators on the elements: the elements stay as they were (also their types)
+    for src, names in [('rows | reduce((acc, v) => acc + v)', {'rows': [[1], [2], [3]]}), ('rows | map(r => r + [0])', {'rows': [[1], [2]]}),
+                       ('rows | filter(r => (r + [0]) | len)', {'rows': [[1], [2]]}), ('rows | sorted(r => (r + [0]) | len)', {'rows': [[1, 1], [2]]}),
+                       ('prices[1]', {'prices': [1, 0.1, 2.5]}), ('prices | sum', {'prices': [1, 0.5, 2.5]}), ('prices | max', {'prices': [1, 0.1, 2.5]}),
+                       ('d | keys', {'d': {1: 'a', 2.5: 'b'}}), ('d | get(1)', {'d': {1: 'a', '1': 'b'}}), ('s | join(",")', {'s': [1, 0.5, None]})]:
+        case()
+        nm = copy.deepcopy(names)
+        run(p, src, names=nm, max_ops_evaluated=500)
+        for k, before in names.items():
+            same_types = repr(nm[k]) == repr(before)
+            if nm[k] != before or not same_types:
+                fail(what='a non-mutating operation modified a host container', src=src, before=before, after=nm[k])
 
 
 def oracle_C14(rnd, budget):
@@ -752,7 +838,7 @@ def oracle_C14(rnd, budget):
     keys = [0, 1, -1, 2, D('1.9'), D('0'), D('-1.5'), 5, -7, '0', 'k', True, None, D('1')]
     steps = 1500 if budget == 'quick' else 8000
     for trial in range(steps // 10):
-        lst = [rnd.randint(0, 9) for _ in range(rnd.randint(0, 4))]
+        lst = [rnd.randint(0, 9 if trial % 2 else 2) for _ in range(rnd.randint(0, 5))]     # every other trial: many duplicates
         dct = {str(k): rnd.randint(0, 9) for k in rnd.sample(['0', '1', 'k', 'True', 'None', '1.9'], rnd.randint(0, 3))}
         ml, md = list(lst), dict(dct)
         nm = {'l': lst, 'd': dct}
@@ -836,7 +922,7 @@ def oracle_C14(rnd, budget):
                     ml.insert(i, v)
                     want = ('ok', None)
                 elif op == 'remove':
-                    x = rnd.randint(0, 9)
+                    x = rnd.choice(ml) if ml and rnd.random() < 0.6 else rnd.randint(0, 9)
                     nm['v'] = x
                     r = run(p, 'l.remove(v)', names=nm)
                     if x in ml:
@@ -963,7 +1049,10 @@ def oracle_C16(rnd, budget):
             ('x[5]', 'missing index'), ('d["zz"]', 'missing key'), ('pop(e)', 'empty pop'), ('x[-9]', 'missing index'), ('"s"[3]', 'missing index'),
             ('"unterminated', 'lexical'), ('1 + + ', 'end'), ('1 2', 'syntax error at a number'), ('f(1 2)', 'syntax error at a number'),
             ('"a" "b"', 'syntax error at a string'), ('x = 1\n2 3', 'syntax error at a number'), ('a[-4]', 'missing index'), ('e[-1]', 'missing index'),
-            ('""[-1]', 'missing index')]
+            ('""[-1]', 'missing index'), ('[1, 2, 3] | filter(v => v > lim)', 'undefined variable in a callback'),
+            ('map([1], v => u(v))', 'undefined function in a callback'), ('sorted([2, 1], v => nope)', 'undefined variable in a key function'),
+            ('reduce([1, 2], (p, q) => p + zz)', 'undefined variable in a reducer'), ('1 +\n2', 'line break inside an expression'),
+            ('total =\n5', 'line break after ='), ('f(1,\n', 'end')]
     for src, what in must:
         case()
         r = run(p, src, names={'x': [1], 'd': {}, 'e': [], 'a': [1, 2, 3]})
@@ -1106,6 +1195,36 @@ def oracle_C18(rnd, budget):
         c = list(p.list_names(s))
         if not (a == b == c == list(SqParser().list_names(s))):
             fail(what='list_names depends on earlier calls', src=s, first=a, second=b, third=c)
+    for s in ['%unit  price% + %unit price%', '%a  b%', 'x = %a b%\ny = %a  b%']:
+        for q in (SqParser(), SqParser(parse_cache={})):
+            case()
+            for t in ('%unit price%', '%a b% + 1'):      # near-duplicates parsed before
+                try:
+                    q.parse(t)
+                except Exception:
+                    pass
+            ln = list(q.list_names(s))
+            rec = Recording({n: 1 for n in ln})
+            rec.asked = []
+            run(q, s, names=rec)
+            stray = [k for k in rec.asked if k not in ln and k not in IMPLICIT]
+            if stray:
+                fail(what='evaluation asked the host for a name list_names does not report', src=s, stray=stray, listed=ln)
+    for bad in ['x = %base rate%\ny = = 2', 'a = %p q%\nb = (']:
+        case()
+        q = SqParser()
+        try:
+            q.eval(bad, names={})
+        except Exception:
+            pass
+        s = 'z + 1'
+        ln = list(q.list_names(s))
+        rec = Recording({n: 1 for n in ln})
+        rec.asked = []
+        run(q, s, names=rec)
+        stray = [k for k in rec.asked if k not in ln and k not in IMPLICIT]
+        if stray:
+            fail(what='after a failed text, evaluation asked the host for a name list_names does not report', earlier=bad, src=s, stray=stray)
     case()
     if list(p.list_names('b a c a')) != ['b', 'a', 'c', 'a']:
         fail(what='list_names does not yield names in source order', got=list(p.list_names('b a c a')))
@@ -1181,10 +1300,19 @@ def oracle_C20(rnd, budget):
         if r[0] != 'parser_error' or 'line 1' not in r[1]:
             fail(what='line number of a syntax error depends on an earlier list_names call', earlier=pre, got=r)
     for trunc in ['1 +', 'f(1,', 'x = ', '[1, 2', '{"a": ', 'a if b else', 'x = 1\ny = (2 +', 'v =>']:
-        case()
-        r = run(p, trunc)
-        if r[0] != 'parser_error' or 'end' not in r[1].lower():
-            fail(what='an error at the very end is not reported as unexpected end of input', src=trunc, got=r)
+        for tail in ('', '\n', '\r\n', '  ', ' \n \n'):
+            case()
+            r = run(p, trunc + tail)
+            if r[0] != 'parser_error' or 'end' not in r[1].lower():
+                fail(what='an error at the very end is not reported as unexpected end of input', src=trunc + tail, got=r)
+    # an offending token at the start of a line, in the middle, after blank lines, after bracketed line breaks
+    for src, line in [('a = 1\nzzz zzz\nb = 2', 2), ('a = 1\n\nzzz zzz', 3), ('a = 1\n  zzz zzz', 2), ('zzz zzz', 1), ('a = [1,\n2]\nzzz zzz', 3),
+                      ('a = 1\r\nzzz zzz', 2), ('a = 1; b = 2\nzzz zzz', 2), ('a = 1 # c\nzzz zzz', 2), ('a = 1\nb = 2\nc = 3\n1 2', 4)]:
+        for q in (p, SqParser(parse_cache={})):
+            case()
+            r = run(q, src)
+            if r[0] != 'parser_error' or not re.search(r'at line %d\b' % line, r[1]):
+                fail(what='reported line is not the line of the offending token', src=src, want_line=line, got=r)
 
 
 def main():
